@@ -21,6 +21,7 @@ partial def parseTy : List String → Option (ATy × List String)
   | "raw" :: r => some (.rawValue, r)
   | "flag" :: r => some (.flag, r)
   | "time" :: r => some (.time, r)
+  | "any" :: r => some (.any, r)
   | "seq" :: s :: r =>
     match parseBool? s, parseTy r with
     | some s, some (e, r') => some (.seqOf s e, r')
@@ -58,6 +59,8 @@ partial def showVal : ATy → AVal → List String
   | _, .raw c t k content full => [s!"r{c}.{t}.{boolStr k}:{hexOrDash content}:{hexOrDash full}"]
   | _, .flag b => ["f" ++ boolStr b]
   | _, .time t => [if t == ⟨1, 1, 1, 0, 0, 0, 0, 0⟩ then "T0" else s!"T{t.unix}.{t.nsec}.{t.offset}"]
+  | _, .any none => ["A-"]
+  | _, .any (some v) => (showVal .bool v).map fun s => "A" ++ s
   | .struct raw fs, .struct rv vs =>
     s!"S{vs.length}" :: ((if raw then ["R" ++ hexOrDash (rv.getD [])] else []) ++ showVals fs vs)
   | .seqOf _ e, .list vs => s!"L{vs.length}" :: vs.flatMap (showVal e)
